@@ -13,6 +13,7 @@ from typing import List
 from typing import Mapping
 from typing import MutableMapping
 from typing import MutableSequence
+from typing import Sequence
 from typing import TypeVar
 from typing import Union
 
@@ -41,6 +42,30 @@ def _insert(
         parent.insert(target, value)
     else:
         raise JSONPatchError("index out of range")
+
+
+def _json_equal(left: object, right: object) -> bool:
+    """JSON equality, as per RFC 6902 section 4.6.
+
+    Python's `==` says `True == 1` and `False == 0`. In JSON, booleans and numbers
+    are different types, at any depth.
+    """
+    if isinstance(left, bool) or isinstance(right, bool):
+        return isinstance(left, bool) and isinstance(right, bool) and left == right
+    if isinstance(left, Mapping) and isinstance(right, Mapping):
+        return left.keys() == right.keys() and all(
+            _json_equal(val, right[key]) for key, val in left.items()
+        )
+    if (
+        isinstance(left, Sequence)
+        and isinstance(right, Sequence)
+        and not isinstance(left, str)
+        and not isinstance(right, str)
+    ):
+        return len(left) == len(right) and all(
+            _json_equal(a, b) for a, b in zip(left, right)  # noqa: B905
+        )
+    return left == right
 
 
 class Op(ABC):
@@ -351,7 +376,7 @@ class OpTest(Op):
     ) -> Union[MutableSequence[object], MutableMapping[str, object]]:
         """Apply this patch operation to _data_."""
         _, obj = self.path.resolve_parent(data)
-        if not obj == self.value:
+        if not _json_equal(obj, self.value):
             raise JSONPatchTestFailure
         return data
 
